@@ -14,6 +14,14 @@ package main
 //   importer/*.go      where the code object an importer hands out comes from (every
 //                      assignment to `code` in Import: the by-name cache or a fresh
 //                      parseAndCompile — the model's `LocalImporter`, `Env.reuse = none`)
+//   importer/*.go      where the MODULE OBJECT an importer hands out comes from (the first result of
+//                      every `return` of Import that is not nil: a new object.NewModule per call — the
+//                      model's `St.enter` appends a new object; `importModuleMC` is the other importer);
+//   object/module.go   what NewModule returns (a composite literal: a new object) and the statements of
+//                      Module.UseGlobals (the module object is bound to the globals slice it is given);
+//   vm/vm.go           the binding step of importModule (`module.UseGlobals(code.Globals)` between eval
+//                      and store) and the code a function call activates (`vm.loadCode(fn.Code())`:
+//                      the function view `St.fnArray`)
 
 import (
 	"bytes"
@@ -203,6 +211,80 @@ func init() {
 		}
 		localCodeSources := codeSources(c14Func(imf, "Import"))
 		fsCodeSources := codeSources(c14Func(fsf, "Import"))
+		// Import: the module object of every successful return (first result, when it is not nil)
+		moduleSources := func(fd *ast.FuncDecl) []string {
+			var out []string
+			ast.Inspect(fd, func(n ast.Node) bool {
+				if _, ok := n.(*ast.FuncLit); ok {
+					return false
+				}
+				if rs, ok := n.(*ast.ReturnStmt); ok && len(rs.Results) == 2 {
+					if x := types.ExprString(rs.Results[0]); x != "nil" {
+						out = append(out, x)
+					}
+				}
+				return true
+			})
+			return out
+		}
+		localModuleSources := moduleSources(c14Func(imf, "Import"))
+		fsModuleSources := moduleSources(c14Func(fsf, "Import"))
+		// every struct field of the importers that is a map (their caches), with its type
+		cacheFields := func(f *ast.File, typ string) []string {
+			var out []string
+			for _, d := range f.Decls {
+				gd, ok := d.(*ast.GenDecl)
+				if !ok {
+					continue
+				}
+				for _, sp := range gd.Specs {
+					ts, ok := sp.(*ast.TypeSpec)
+					if !ok || ts.Name.Name != typ {
+						continue
+					}
+					if st, ok := ts.Type.(*ast.StructType); ok {
+						for _, fl := range st.Fields.List {
+							if _, isMap := fl.Type.(*ast.MapType); isMap {
+								for _, nm := range fl.Names {
+									out = append(out, nm.Name+" "+types.ExprString(fl.Type))
+								}
+							}
+						}
+					}
+				}
+			}
+			return out
+		}
+		localCaches := cacheFields(imf, "LocalImporter")
+		fsCaches := cacheFields(fsf, "FSImporter")
+		// object.NewModule: what it returns; Module.UseGlobals: its statements
+		mf := c14Parse(repo, "object/module.go")
+		var newModuleReturns []string
+		ast.Inspect(c14Func(mf, "NewModule"), func(n ast.Node) bool {
+			if rs, ok := n.(*ast.ReturnStmt); ok && len(rs.Results) == 1 {
+				x := rs.Results[0]
+				if u, ok := x.(*ast.UnaryExpr); ok && u.Op == token.AND {
+					if cl, ok := u.X.(*ast.CompositeLit); ok {
+						newModuleReturns = append(newModuleReturns, "&"+types.ExprString(cl.Type)+"{...}")
+						return true
+					}
+				}
+				newModuleReturns = append(newModuleReturns, types.ExprString(x))
+			}
+			return true
+		})
+		var useGlobalsStmts []string
+		for _, d := range mf.Decls {
+			if fd, ok := d.(*ast.FuncDecl); ok && fd.Name.Name == "UseGlobals" && fd.Recv != nil {
+				for _, st := range fd.Body.List {
+					if _, isIf := st.(*ast.IfStmt); isIf {
+						useGlobalsStmts = append(useGlobalsStmts, "if "+types.ExprString(st.(*ast.IfStmt).Cond)+" { panic }")
+						continue
+					}
+					useGlobalsStmts = append(useGlobalsStmts, c14StmtText(st))
+				}
+			}
+		}
 		// risor_config.newLocalImporter
 		cf := c14Parse(repo, "risor_config.go")
 		var cfgExts []string
@@ -327,6 +409,8 @@ func init() {
 					steps = append(steps, "importer.Import")
 				case "vm.eval":
 					steps = append(steps, "eval")
+				case "module.UseGlobals":
+					steps = append(steps, "bind "+c14StmtText(x))
 				}
 			}
 			return true
@@ -361,6 +445,14 @@ func init() {
 			})
 			return false
 		})
+		// activateFunction: the code a function call activates
+		var callLoads []string
+		ast.Inspect(c14Func(vf, "activateFunction"), func(n ast.Node) bool {
+			if c, ok := n.(*ast.CallExpr); ok && types.ExprString(c.Fun) == "vm.loadCode" {
+				callLoads = append(callLoads, c14StmtText(c))
+			}
+			return true
+		})
 		// compiler: what compileImport loads as the module name
 		cpf := c14Parse(repo, "compiler/compiler.go")
 		moduleNameExpr := assignOf(c14Func(cpf, "compileImport"), "moduleName")
@@ -392,6 +484,18 @@ func init() {
 		s += "/-- every expression assigned to `code` in LocalImporter.Import / FSImporter.Import, in source order -/\n"
 		s += "def localImporterCodeSources : List String := " + c14_leanStrList(localCodeSources) + "\n"
 		s += "def fsImporterCodeSources : List String := " + c14_leanStrList(fsCodeSources) + "\n"
+		s += "/-- the first result of every successful `return` of LocalImporter.Import / FSImporter.Import, in source order -/\n"
+		s += "def localImporterModuleSources : List String := " + c14_leanStrList(localModuleSources) + "\n"
+		s += "def fsImporterModuleSources : List String := " + c14_leanStrList(fsModuleSources) + "\n"
+		s += "/-- the map-typed fields (caches) of the two importer structs -/\n"
+		s += "def localImporterCaches : List String := " + c14_leanStrList(localCaches) + "\n"
+		s += "def fsImporterCaches : List String := " + c14_leanStrList(fsCaches) + "\n"
+		s += "/-- what object.NewModule returns -/\n"
+		s += "def newModuleReturns : List String := " + c14_leanStrList(newModuleReturns) + "\n"
+		s += "/-- the statements of Module.UseGlobals -/\n"
+		s += "def useGlobalsStmts : List String := " + c14_leanStrList(useGlobalsStmts) + "\n"
+		s += "/-- the vm.loadCode calls of vm.activateFunction (the code a function call runs on) -/\n"
+		s += "def activateFunctionLoads : List String := " + c14_leanStrList(callLoads) + "\n"
 		s += "\nend Risor.Generated.C14\n"
 		return s
 	}})
